@@ -330,7 +330,7 @@ def cases(tier, mods):
             out.append(make_em_case(a, b, "", "", ()))
         out.append(make_em_case("C", "statC", "k", "m", (2,)))
         out.append(make_em_case("G", "T", "u", "", (2,)))
-        for k in ("plainL", "plainE", "compound", "Taffine", "Gaffine"):
+        for k in ("plainL", "plainE", "compound", "Taffine", "Gaffine", "Tk", "Tm", "mdegC", "degF", "degC", "lat", "kplainL"):
             for s in ("cgs", "mks"):
                 out.append(make_base_case(k, s, ()))
     else:
@@ -348,7 +348,7 @@ def cases(tier, mods):
             for pa, pb in [("", ""), ("k", ""), ("", "m"), ("u", "M")]:
                 for sh in [(), (2,)]:
                     out.append(make_em_case(a, b, pa, pb, sh))
-        for k in ("plainL", "kplainL", "plainE", "compound", "Taffine", "Tk", "Gaffine", "Tplain"):
+        for k in sorted(KINDS):
             for s in ("cgs", "mks"):
                 for sh in [(), (2,)]:
                     out.append(make_base_case(k, s, sh))
